@@ -168,9 +168,10 @@ class Model:
                 rr = (0.15 if r.vn_kv <= 1. else 0.07 if r.sn_mva < 100 else 0.05) * x
             self.Y[nb[b], nb[b]] += 1. / (kg * self._z(rr, x))
             self.gen_nodes.add(nb[b])
+            self.sources[nb[b]] = True      # a generator alone also feeds a fault in its island
 
     def _islands(self):
-        """nodes connected (through branches) to an external grid: only those are calculated"""
+        """nodes connected (through branches) to an external grid or a generator: only those are calculated"""
         n = len(self.names)
         adj = (np.abs(self.Y) > 0)
         seen = np.zeros(n, dtype=bool)
@@ -192,6 +193,6 @@ class Model:
         return Z
 
     def thevenin(self):
-        """dict bus -> Z_kk (ohm, complex) for every bus supplied from an external grid"""
+        """dict bus -> Z_kk (ohm, complex) for every bus supplied by a voltage source"""
         Z = self.zbus()
         return {b: Z[n, n] for b, n in self.node_of_bus.items() if self.live[n]}
